@@ -376,7 +376,7 @@ VARIANTS: list[dict] = (
        dict(hdr=False), dict(faceids='zeros'), dict(faceids='empty'), dict(origin_vertex=False),
        dict(layout='chaos', fractional_bounds=True), dict(detail_shapes=True)]
     # side lumps (cleared by a look, restored only by the view's writer) at the values where they LOOK unused
-    + [dict(aux='zero'), dict(aux='default'), dict(aux='mixed'), dict(aux='maxed'),
+    + [dict(aux='zero'), dict(aux='default'), dict(aux='mixed'), dict(aux='maxed'), dict(aux='absent'),
        dict(aux='zero', layout='l4d2', compress=('OVERLAY_FADES', 'LEAFMINDISTTOWATER', 'TEXDATA'))]
 )
 # malformed lumps: looking at the view raises (at once, or after other views were parsed), the caller goes on and saves
@@ -792,7 +792,7 @@ def run(ck: Ck) -> None:
                'compressed / extra game lumps, missing aux lumps, FACEIDS variants, no origin vertex, water, vis; side lumps '
                '(OVERLAY_FADES, OVERLAY_SYSTEM_LEVELS, LEAFMINDISTTOWATER, LEAFFACES, LEAFBRUSHES, PRIMINDICES, PRIMVERTS, '
                'BRUSHSIDES, TEXDATA, TEXDATA_STRING_TABLE) at the values where they look unused: all zero, the reader\'s defaults '
-               'for an absent lump, first record zero, all bits set); histories: '
+               'for an absent lump, first record zero, all bits set, optional side lumps absent); histories: '
                'no access, every single view, every ordered pair on the default file, random subsets and orders, all views '
                'forwards/backwards, 1-3 look/save cycles; 8 malformed inputs (unknown static-prop version, stray bytes in the prop '
                'lump, unterminated entity, texinfo naming a missing texdata, truncated detail props / overlays, also LZMA-compressed) '
@@ -881,7 +881,7 @@ def run(ck: Ck) -> None:
         corr_files = [default, synth_subjects[0][1], synth_subjects[5][1], aux_zero] + subjects[:1] + \
                      [bad_subjects[1][1], bad_subjects[3][1], bad_subjects[5][1]]
         correspondence(ck, side, corr_files, work)
-        container_check(ck, [s for _, s in synth_subjects] + [s for _, s in bad_subjects[:2]] + subjects[:1], work)
+        container_check(ck, [s for o, s in synth_subjects if 'aux' not in o] + [s for _, s in bad_subjects[:2]] + subjects[:1], work)
         container_model_check(ck, work)
     tm['inputs+correspondence'] = round(time.time() - t0, 1)
     t0 = time.time()
@@ -988,7 +988,7 @@ def run(ck: Ck) -> None:
             rng.shuffle(cyc[0])
             attempt(s, opts, cyc)
     for k, (a, b) in enumerate(itertools.permutations(VIEWS, 2)):
-        if (a < b and k % 3 == 0) or ck.budget(0, 1):
+        if (a < b and k % 4 == 0) or ck.budget(0, 1):
             attempt(default, synth_subjects[1][0], [[a, b]])
     nrand = ck.budget(48, 3000)
     for i in range(nrand):
@@ -1002,7 +1002,7 @@ def run(ck: Ck) -> None:
     t0 = time.time()
     for subj in subjects:       # the sample map (large entity lump: fewer trials)
         attempt(subj, None, [[]])
-        for v in (VIEWS if ck.budget(0, 1) else rng.sample(VIEWS, 9)):
+        for v in (VIEWS if ck.budget(0, 1) else rng.sample(VIEWS, 7)):
             attempt(subj, None, [[v]])
         attempt(subj, None, [list(VIEWS)])
         for i in range(ck.budget(2, 60)):
